@@ -44,6 +44,8 @@ def definitions(draw):
             isstr = ptype in ("string", ["string"])
             if isstr and draw(st.booleans()):
                 extra["values"] = draw(st.lists(st.sampled_from(['"x"', '"y"', '"long value"', '"i;octet"']), min_size=1, max_size=3, unique=True))
+            if ptype in ("number", ["number"]) and draw(st.booleans()):
+                extra["values"] = draw(st.lists(st.sampled_from(["0", "15", "2K", "7"]), min_size=1, max_size=3, unique=True))
             if len(tags) == 2 and draw(st.booleans()):
                 extra["valid_for"] = [draw(st.sampled_from(tags))]
             d["extra_arg"] = extra
@@ -89,7 +91,7 @@ def to_entry(name, d):
 
 def register(d):
     k = next(_counter)
-    name = "vfc%dx%d" % (os.getpid(), k)
+    name = ("vfc%dx%d" if k % 2 else "vf_c%d_%d") % (os.getpid(), k)
     cname = name.capitalize() + "Command"
     base = impl.sl_commands.ActionCommand if d["role"] == "action" else impl.sl_commands.TestCommand
     attrs = {"args_definition": [dict(x) for x in d["slots"]] + [dict(x) for x in d["pos"]]}
